@@ -16,6 +16,7 @@ import TracingModel.Props.C07
 import TracingModel.Props.C04
 import TracingModel.Lemmas.StackHint
 import TracingModel.Props.C12E
+import TracingModel.Props.C12F
 
 namespace C12
 open TM.Reload TM.Filtering TM.FilterExpr TM.Directive TM.FilteringLemmas
